@@ -326,8 +326,18 @@ def run(repo, chk):
         chk.expect(seen == {True, False}, "R-C07-4", "%s handles both override cases" % pname, loc(fn2), found=sorted(seen))
     chk.floor("R-C07-4", 8)
 
+    # ---------------------------------------------------------------- R-C07-6 the overrides reach the model whenever they change
+    from ._shared import rule_changes_forwarded
+    rule_changes_forwarded(repo, chk, "R-C07-6")
+    chk.floor("R-C07-6", 2)
 
+
+HYD = "wntr/sim/hydraulics.py"
 WITNESSES = [
+    dict(name="changes-of-isolated-elements-dropped", file=HYD, old="    for obj, attr in change_tracker.get_changes(ref_point='model'):\n        model_updater.update(m, wn, obj, attr)\n",
+         new="    for obj, attr in change_tracker.get_changes(ref_point='model'):\n        if getattr(obj, '_is_isolated', False):\n            continue\n        model_updater.update(m, wn, obj, attr)\n", rule="R-C07-6"),
+    dict(name="changes-materialised-first-preserving", file=HYD, old="    for obj, attr in change_tracker.get_changes(ref_point='model'):\n        model_updater.update(m, wn, obj, attr)\n",
+         new="    changes = list(change_tracker.get_changes(ref_point='model'))\n    for change in changes:\n        target, attribute = change\n        model_updater.update(m, wn, target, attribute)\n", silent=True),
     dict(name="guard-pnom-pmin-swapped", file=CON, old="con.add_condition(aml.inequality(body=h - elev - pnom + delta, ub=0), d - d_expected*((h-elev-pmin)/(pnom-pmin))**pressure_exponent)",
          new="con.add_condition(aml.inequality(body=h - elev - pmin + delta, ub=0), d - d_expected*((h-elev-pmin)/(pnom-pmin))**pressure_exponent)", rule="R-C07-1"),
     dict(name="exponent-from-wrong-object", file=CON, old="            if node.pressure_exponent is None:\n                pressure_exponent = wn.options.hydraulic.pressure_exponent\n            else:\n                pressure_exponent = node.pressure_exponent",
